@@ -105,6 +105,13 @@ def units(tier, seed):
             for icpt in (True, False):
                 block.append({"terms": [t1, t2], "icpt": icpt, "lv": lvb})
         u.append(block)
+    # the same transform on two different variables in one design
+    block = []
+    for a1, a2 in (("poly(x, 2)", "poly(z, 2)"), ("scale(x)", "scale(z)"), ("poly(x, 2)", "poly(z, 3)"), ("center(x)", "scale(z)")):
+        for fam in ([["x"], ["z"]], [["z"], ["x"]], [["x"], ["f", "z"]], [["f", "x"], ["z"]], [["x", "z"]], [["x"], ["z"], ["x", "z"]], [["f", "x"], ["f", "z"]]):
+            for icpt in (True, False):
+                block.append({"terms": fam, "icpt": icpt, "lv": {"f": 3, "g": 2, "k": 3}, "sub": ["x", a1, "z", a2]})
+    u.append(block)
     # two numerics in quick too (numeric-part order), small
     tz = [list(p) for n_ in (1, 2, 3) for p in itertools.permutations(["f", "x", "z"], n_)]
     block = []
@@ -170,6 +177,8 @@ def frame_for(lv, reps=2):
 def atom_text(name, sub):
     if sub and name == sub[0]:
         return sub[1]
+    if sub and len(sub) > 2 and name == sub[2]:
+        return sub[3]
     return name
 
 
@@ -192,6 +201,16 @@ def atom_columns(name, sub, df):
         return frames.indicators(col)[0]
     if text == name:
         return df[name].to_numpy(dtype=float)[:, None]
+    v = df[name].to_numpy(dtype=float)
+    # closed-form references for the transforms whose span is known (independent of the library's own state)
+    if text.startswith("poly("):
+        deg = int(text.split(",")[1].strip(" )"))
+        Q, _ = np.linalg.qr(np.column_stack([v ** k for k in range(deg + 1)]))
+        return Q[:, 1:]
+    if text.startswith("scale("):
+        return ((v - v.mean()) / v.std())[:, None]
+    if text.startswith("center("):
+        return (v - v.mean())[:, None]
     key = (text, id(df))
     if key not in _NUMCACHE:
         _NUMCACHE[key] = np.asarray(design_matrices("0 + " + text, df).common.design_matrix, dtype=float)
